@@ -68,8 +68,8 @@ def atom_status(E, at, regs, varat):
     fired = set(shape) - {"u64-vs-negative-short", "narrow-reg-in-64", "widen-in-place", "const-left-32"}
     if "const-left-32" in shape:
         in32 = (lambda v: -(1 << 31) <= v < (1 << 31)) if info["sg"] else (lambda v: 0 <= v < (1 << 32))
-        if (dc.const_left_32(E, l, info["l_long"]) and not in32(a)) or \
-                (not info["r_imm"] and dc.const_left_32(E, r, info["r_width"]) and not in32(b)):
+        # the operand is computed in 32 bits and makes the whole comparison a 32-bit one: either value may be cut
+        if not (in32(a) and in32(b)):
             fired.add("const-left-32")
     if "u64-vs-negative-short" in shape and b < 0:
         fired.add("u64-vs-negative-short")
@@ -336,7 +336,8 @@ PROVED = [
     "Comparison.__enter__/__exit__/Else, Elser: with cond: / with cond as Else: ... with Else: ..., nested and sequenced with C01's "
     "assignments (with_correct by induction on statements); placeholders as patched slots (Pend.patch, target_ok)",
     "integer level: mtruth_eq_truth (signed/unsigned/mixed-width comparisons and bit tests = Python integers when the compared "
-    "values fit the width of the jump)",
+    "values fit the width of the jump); elabC_truth (operator protocol of comparisons: int < expr, Binary < Sum, ==, (a & b) != 0, "
+    "expression as condition) preserves the truth value",
 ]
 CORRESPONDED_NOT_PROVED = [
     "jumpIf(...) / target() / Else() used directly (statement forms jif, jifElse; the only way to reach the off+1 branch of "
@@ -345,15 +346,17 @@ CORRESPONDED_NOT_PROVED = [
     "(Binary, Negate) in a 64-bit unsigned comparison (atomFrag: only constants and unsigned 1/2/4-byte variables are known at 64 bits)",
     "a register assigned in both branches and read after the join: accepted by the generator for a SimpleComparison condition; the "
     "theorem's ownership tracking (KStmt.own) is conservative and treats it as not owned",
-    "surface level: the theorem speaks about the comparison objects the operator overloads built (elabC, corresponded); that e.g. "
-    "`5 < x` built as x.__gt__(5) has the truth value of the surface text is checked by the oracle (truth_ref on the JSON), not proved",
+    "surface level: C03_partial speaks about the comparison objects the operator overloads built; elabC_truth proves that their truth "
+    "value is that of the surface text (reflected operators, ~(!=), bit tests); the statement-level semantics is not restated over "
+    "surface statements (the oracle evaluates the JSON text directly)",
     "bit fields (Memory.__ne__/__invert__ with a tuple format) and fixed-point comparisons: not modelled (dsl.py has no such variables)",
 ]
 THEOREMS = [
     "Ebv.Ebpf.run_of_reach", "Ebv.Ebpf.segRun_of_exec", "Ebv.Ebpf.SegRun.append", "Ebv.Ebpf.JumpRun.join",
     "Ebv.Gen.JumpRun.over", "Ebv.Gen.calc_none", "Ebv.Gen.cmpCore_correct", "Ebv.Gen.target_ok", "Ebv.Gen.cond_correct",
     "Ebv.Gen.splice_shape", "Ebv.Gen.withThen_correct", "Ebv.Gen.withElse_correct", "Ebv.Gen.withElse_bits_correct",
-    "Ebv.Gen.with_correct", "Ebv.Gen.mtruth_eq_truth", "Ebv.Gen.sem_semZ", "Ebv.Gen.emitS_compile",
+    "Ebv.Gen.with_correct", "Ebv.Gen.mtruth_eq_truth", "Ebv.Gen.sem_semZ", "Ebv.Gen.emitS_compile", "Ebv.Gen.elabC_truth",
+    "Ebv.C03.C03_surface_truth",
     "Ebv.C03.C03_core", "Ebv.C03.C03_partial", "Ebv.C03.C03_full_refuted",
     "Ebv.C03.u64_vs_negative_short_refuted", "Ebv.C03.narrow_reg_in_64_refuted", "Ebv.C03.widen_in_place_refuted",
     "Ebv.C03.unary_in_place_refuted", "Ebv.C03.unary_32_in_64_refuted", "Ebv.C03.const_left_32_refuted",
@@ -388,7 +391,7 @@ LEVEL_NOTE = ("trusted: Lean kernel + propext/Classical.choice/Quot.sound; model
               "model validated, not verified. Proved: all six comparisons, bit tests incl. Else splice, & | ~ ==, with / with-Else, "
               "nesting, sequencing, owners intersection (conservatively). Corresponded + oracle only (NOT proved): jumpIf/target/Else "
               "used directly (off+1 branch), operands outside C01's fragment or compound 32-bit operands in unsigned 64-bit "
-              "comparisons, reads of registers assigned in both branches, surface-text truth of reflected operators, bit fields and "
+              "comparisons, reads of registers assigned in both branches, bit fields and "
               "fixed point (not modelled). Known defect classes of the unchanged tree (each refuted in Lean): u64-vs-negative-short, "
               "narrow-reg-in-64, widen-in-place, const-left-32, and C01's unary-in-place, unary-32-in-64, abs-32, sum-minus.")
 TECHNIQUE = "Lean 4 structural induction over condition trees and statements (compiler correctness) + exact opcode-list correspondence"
